@@ -112,20 +112,26 @@ def _case(rng):
     # (everything is scaled by 4 so that coordinates and edges are whole numbers); queries stay float64
     cdtype = rng.choice(['d', 'd', 'd', 'f', 'i'])
     tz = None
+    tunit = 'hours'
     if rng.random() < 0.15:
         # datetime front end: the coordinate is "hours since 2000-01-01", queries are datetimes (naive, UTC or with
         # a non-zero UTC offset) at multiples of 1/16 hour, which date2num converts exactly
         tz = rng.choice(['naive', 'utc', '+0530', '-0500', '+0100'])
         vals = [Fraction(round(v * 16), 16) for v in vals]
         cdtype = 'd'
-    if cdtype == 'i':
-        c, vals = [x * 4 for x in c], [x * 4 for x in vals]
+        # units as fine as the spacing ("hours since") or coarser ("days since": the stored values are k/24, k/384)
+        tunit = rng.choice(['hours', 'hours', 'days'])
+    # integer coordinates: everything times 4; "days since" units: every instant a multiple of 3/128 hour = 1/1024 day (coordinates of 1/256 day), so
+    # that the stored day numbers (and their differences) are exact in binary but are not 6-decimal numbers
+    k_ = 4 if cdtype == 'i' else (Fraction(3, 8) if (tz and tunit == 'days') else 1)
+    if k_ != 1:
+        c, vals = [x * k_ for x in c], [x * k_ for x in vals]
         if ekind != 'none':
-            e = [x * 4 for x in e]
+            e = [x * k_ for x in e]
             edges = ('e1:' + lib.show_list(e, lib.show_rat)) if ekind == 'e1' else \
                 ('b2:' + lib.show_rows([[e[i], e[i + 1]] for i in range(n)], lib.show_rat))
     return dict(stream=stream, method=method, clean=rng.choice(['mask', 'mask', 'none']),
-                bmode=rng.choice(['ignore', 'warn', 'error']), left=left, right=right, cdtype=cdtype, tz=tz,
+                bmode=rng.choice(['ignore', 'warn', 'error']), left=left, right=right, cdtype=cdtype, tz=tz, tunit=tunit,
                 coords=[lib.show_rat(x) for x in c], edges=edges, vals=[lib.show_rat(x) for x in vals])
 
 
@@ -145,16 +151,19 @@ def _mkfile(case):
     f.createDimension('x', len(c))
     v = f.createVariable('x', case.get('cdtype', 'd'), ('x',))
     v[:] = c
+    days = case.get('tz') and case.get('tunit') == 'days'
     if case.get('tz'):
-        v.units = 'hours since 2000-01-01 00:00:00'
+        v.units = '%s since 2000-01-01 00:00:00' % case.get('tunit', 'hours')
+        if days:
+            v[:] = [x / 24. for x in c]
     e = case['edges']
     if e.startswith('e1:'):
-        ed = [float(Fraction(x)) for x in e[3:].split(',')]
+        ed = [float(Fraction(x)) / (24. if days else 1.) for x in e[3:].split(',')]
         f.createDimension('xe', len(ed))
         b = f.createVariable('x_bounds', 'd', ('xe',))
         b[:] = ed
     elif e.startswith('b2:'):
-        rows = [[float(Fraction(x)) for x in r.split(',')] for r in e[3:].split(';')]
+        rows = [[float(Fraction(x)) / (24. if days else 1.) for x in r.split(',')] for r in e[3:].split(';')]
         f.createDimension('nv', 2)
         b = f.createVariable('x_bnds', 'd', ('x', 'nv'))
         b[:] = rows
@@ -166,9 +175,9 @@ def _datetimes(case):
     import datetime as dt
     out = []
     for x in case['vals']:
-        secs = Fraction(x) * 3600
-        assert secs.denominator == 1
-        t = dt.datetime(2000, 1, 1, tzinfo=dt.timezone.utc) + dt.timedelta(seconds=int(secs))
+        us = Fraction(x) * 3600 * 1000000
+        assert us.denominator == 1
+        t = dt.datetime(2000, 1, 1, tzinfo=dt.timezone.utc) + dt.timedelta(microseconds=int(us))
         tz = case['tz']
         if tz == 'naive':
             t = t.replace(tzinfo=None)
